@@ -2,6 +2,7 @@ package seq
 
 import (
 	"fmt"
+	"time"
 
 	col "github.com/craterdog/go-collection-framework/v4/collection"
 
@@ -147,7 +148,41 @@ func (r *c13run) construct(rng *core.Rng) bool {
 		}
 	case 2, 3, 4, 5:
 		var seq col.Sequential[int]
-		if how == 5 {
+		queueSrc := false
+		if how == 5 && rng.Chance(1, 12) {
+			// a queue that is full, with one producer parked on it, as the source: whatever the
+			// constructor sees of the parked value, it must not hold more than its capacity
+			q := col.Queue[int](Notation).Make()
+			qc := int(q.GetCapacity())
+			src := make([]int, qc+1)
+			for i := range src {
+				r.next++
+				src[i] = r.next
+			}
+			for _, v := range src[:qc] {
+				q.AddValue(v)
+			}
+			done := make(chan struct{})
+			go func() { defer close(done); q.AddValue(src[qc]) }()
+			for i := 0; i < 2000 && len(q.AsArray()) <= qc; i++ {
+				time.Sleep(50 * time.Microsecond)
+			}
+			r.Log("Stack.MakeFromSequence(full queue of %d with a producer parked on it)", qc)
+			pan, _, msg = Try(func() { r.real = S.MakeFromSequence(q) })
+			q.RemoveHead() // lets the parked producer finish
+			<-done
+			q.RemoveAll()
+			queueSrc = true
+			if !pan {
+				got := r.real.AsArray()
+				if (len(got) != qc && len(got) != qc+1) || fmt.Sprint(got) != fmt.Sprint(src[:len(got)]) {
+					r.Fail("construct/queue-source", "a stack built from the queue %v (the last value pending) holds %v", src, got)
+					return false
+				}
+				r.model = Clone(got)
+			}
+			r.C.Cover("stack.construct.queue-with-parked-producer")
+		} else if how == 5 {
 			// another collection as the source: the two must not share anything afterwards
 			r.srcKind = []string{"stack", "list", "array"}[rng.Intn(3)]
 			switch r.srcKind {
@@ -175,7 +210,9 @@ func (r *c13run) construct(rng *core.Rng) bool {
 			pan, _, msg = Try(func() { r.real = S.MakeFromSequence(seq) })
 		}
 		// the first value of the source is the top (the notation lists a stack top first)
-		r.model = Clone(vs)
+		if !queueSrc {
+			r.model = Clone(vs)
+		}
 		r.cap = -1 // at least the size; checked by the invariant
 		if pan && n > def {
 			// refusing more values than the default capacity is acceptable
@@ -204,8 +241,51 @@ func (r *c13run) construct(rng *core.Rng) bool {
 	return !r.Failed
 }
 
+// backdoor: a stack is changed through AddValue, RemoveTop and RemoveAll only.  If the
+// object also answers to the mutating aspects of other collections (reachable by a type
+// assertion), using them is a history like any other - and none of them has a meaning
+// under which the stack's statements survive, so the model stays as it is.
+func (r *c13run) backdoor(rng *core.Rng) {
+	r.next++
+	v := r.next
+	var what string
+	r.Guard("backdoor", func() {
+		switch x := any(r.real).(type) {
+		case col.Expandable[int]:
+			what = "Expandable.AppendValue"
+			x.AppendValue(v)
+		case col.Updatable[int]:
+			if len(r.model) > 0 {
+				what = "Updatable.SetValue"
+				x.SetValue(1, v)
+			}
+		case col.Sortable[int]:
+			if len(r.model) > 1 {
+				what = "Sortable.ReverseValues"
+				x.ReverseValues()
+			}
+		case col.Flexible[int]:
+			what = "Flexible.RemoveValue"
+			if len(r.model) > 0 {
+				x.RemoveValue(r.model[len(r.model)-1])
+			}
+		}
+	})
+	if what != "" && !r.Failed {
+		r.Log("(type assertion) %s", what)
+		r.observe("backdoor." + what)
+	}
+	r.C.Cover("stack.backdoor-probed")
+}
+
 func (r *c13run) step(rng *core.Rng) {
 	n := len(r.model)
+	if rng.Chance(1, 40) {
+		r.backdoor(rng)
+		if r.Failed {
+			return
+		}
+	}
 	op := []string{"AddValue", "RemoveTop", "RemoveAll"}[rng.Weighted([]int{10, 8, 1})]
 	before := fmt.Sprint(r.model, r.cap)
 	returned := false
